@@ -40,6 +40,8 @@ type Prog struct {
 	needAppendAxiom map[string]bool
 	scc     map[string]int
 	rawOrder []string
+	lemmas  []*lemmaInfo
+	lemmasBuilt bool
 	recSpec map[string]bool
 	fnTable *Term
 	fnTableNotes []string
